@@ -540,3 +540,47 @@ Proof.
 Qed.
 
 End GateProofs.
+
+(* ---------- the same, for every state reachable from the initial one ---------- *)
+
+Section Reach.
+Variable L : Type.
+Variable cls : L -> lclass.
+Variable cf : cfg.
+Hypothesis P3 : cP3 cf = true.
+
+Definition reachable (s : rstate L) : Prop := exists es os, rrun L cls cf (rinit L) es = (s, os).
+
+Lemma reachable_wf : forall s, reachable s -> rwf L cf s.
+Proof. intros s (es & os & H). exact (rrun_wf L cls cf P3 es _ _ _ (rinit_wf L cf) H). Qed.
+
+Lemma keepalive_ignored_reach : forall s l, reachable s -> cls l = CKeep ->
+  exists s', rstep L cls cf s (EArrive l) = (s', None) /\
+  match ph s with
+  | PRead _ =>
+    if pausing (core s)
+    then ph s' = PGate (pidx (core s)) (cSL cf) /\ queue s' = [] /\ pflag (core s') = true
+    else ph s' = PRead (pidx (core s)) /\ tmo (core s') = fresh cf /\ ntmo (core s') = None /\
+         queue s' = [] /\ pflag (core s') = true
+  | p => ph s' = p /\ core s' = core s
+  end.
+Proof. intros s l Hr Hk. exact (keepalive_ignored L cls cf P3 s l (reachable_wf s Hr) Hk). Qed.
+
+Lemma no_false_timeout_reach : forall s e s' b, reachable s ->
+  rstep L cls cf s e = (s', Some (OTimeout b)) ->
+  e = ETick /\ pausing (core s) = false /\
+  exists snap, ph s = PRead snap /\ snap = pidx (core s) /\
+    (ntmo (core s) = None \/ exists r, ntmo (core s) = Some r /\ r <= 1).
+Proof. intros s e s' b Hr H. exact (reader_no_false_timeout L cls cf P3 s e s' b (reachable_wf s Hr) H). Qed.
+
+Lemma timer_in_pause_no_error_reach : forall s s' o, reachable s -> pausing (core s) = true ->
+  rstep L cls cf s ETick = (s', o) -> forall b, o <> Some (OTimeout b).
+Proof. intros s s' o Hr. exact (timer_in_pause_no_error L cls cf P3 s s' o (reachable_wf s Hr)). Qed.
+
+(* a pause that begins while a read is blocked makes that read's snapshot stale: whatever timer expires
+   in it afterwards cannot produce the error (stated on the generation counter) *)
+Lemma pause_bumps_generation : forall s, reachable s -> pausing (core s) = false ->
+  pidx (core (fst (rstep L cls cf s EPause))) = S (pidx (core s)).
+Proof. intros s Hr Hp. exact (proj1 (pidx_pause L cls cf s Hp (reachable_wf s Hr))). Qed.
+
+End Reach.
